@@ -167,43 +167,6 @@ per_variant!(in_back, 26, true);
 per_variant!(out_back, 27, true);
 per_variant!(in_out_back, 28, true);
 
-macro_rules! mirror_pair {
-    ($name:ident, $a:expr, $b:expr) => {
-        /// C13: In/Out pairs are point-mirrors of each other (to float rounding): a(x) + b(1-x) = 1.
-        #[kani::proof]
-        #[kani::solver(kissat)]
-        pub(crate) fn $name() {
-            let x: f32 = kani::any();
-            kani::assume(unit(x));
-            let s = builtin($a).calc(x) + builtin($b).calc(1.0 - x);
-            assert!((s - 1.0).abs() <= 1.0e-5);
-        }
-    };
-}
-mirror_pair!(mirror_in_out_quad, 8, 9);
-mirror_pair!(mirror_in_out_cubic, 11, 12);
-mirror_pair!(mirror_in_out_sine, 5, 6);
-mirror_pair!(mirror_css_in_out, 2, 3);
-mirror_pair!(mirror_self_in_out_quad, 10, 10);
-mirror_pair!(mirror_self_in_out_back, 28, 28);
-
-macro_rules! monotone {
-    ($name:ident, $a:expr) => {
-        /// C13: non-decreasing on [0,1] up to float rounding.
-        #[kani::proof]
-        #[kani::solver(kissat)]
-        pub(crate) fn $name() {
-            let x: f32 = kani::any();
-            let y: f32 = kani::any();
-            kani::assume(unit(x) && unit(y) && x <= y);
-            assert!(builtin($a).calc(x) <= builtin($a).calc(y) + 1.0e-6);
-        }
-    };
-}
-monotone!(monotone_in_quad, 8);
-monotone!(monotone_in_cubic, 11);
-monotone!(monotone_ease, 1);
-
 /// C13: the stored Bezier segment of a `CubicBezierEasing` runs from (0,0) to (1,1) with the
 /// given control points.
 #[kani::proof]
